@@ -342,6 +342,18 @@ def run(prog, check):
         check.ob('C14.R2', '%s::class-has-a-store(%s)' % (f.key, cls), cls in seen_classes, '%s:%d' % (f.module.rel, loop.lineno),
                  'some path stores into %s' % cls if cls in seen_classes else 'no path stores into %s any more' % cls,
                  'a %s line' % cls)
+    # a parse starts from empty classes: what the lists hold afterwards is what this text says, not what an earlier text left behind
+    hdr_ = [n_ for n_ in g.nodes if n_.kind == 'for' and n_.stmt is loop]
+    for cls in CLASS_LISTS + CLASS_DICTS:
+        resets_ = [n_ for n_ in g.stmt_nodes() if n_.kind == 'stmt' and isinstance(n_.ast, ast.Assign) and any(
+            isinstance(t_, ast.Attribute) and t_.attr == cls and isinstance(t_.value, ast.Name) and t_.value.id == 'self' for t_ in n_.ast.targets) and
+            ((isinstance(n_.ast.value, (ast.List, ast.Dict)) and not getattr(n_.ast.value, 'elts', getattr(n_.ast.value, 'keys', None))) or
+             (isinstance(n_.ast.value, ast.Call) and call_name(n_.ast.value) in ('list', 'dict') and not n_.ast.value.args))]
+        okr_ = bool(hdr_) and bool(resets_) and g.must_pass(g.entry, hdr_[0], resets_)
+        check.ob('C14.R2', '%s::class-starts-empty(%s)' % (f.key, cls), okr_, '%s:%d' % (f.module.rel, loop.lineno),
+                 '%s is emptied before the lines are read' % cls if okr_ else
+                 '%s is not emptied before the lines are read: entries of a text parsed earlier by the same object stay in the class' % cls,
+                 'a parser object given a second text that has fewer lines of this class')
     # the exogenous class is selected by the section mode, the others by line form
     # ---- R3 ----------------------------------------------------------------------------------------
     table = []
@@ -546,6 +558,31 @@ def run(prog, check):
             n1 += 1
             check.ob('C14.R1', '%s::split-at-equals-on-comment-free-text(%s)' % (fn.key, unparse(subj)), clean, '%s:%d' % (fn.module.rel, c.lineno), why,
                      "a declaration 'T # tax rule: T = rate*W' (an '=' inside the comment)")
+    # ---- R1 (cont.): free text may hold any number of separators -----------------------------------------------------------
+    # `a, b = text.split(sep)` works only for exactly one separator in the text: where the text carries a comment or a description
+    # (anything after '#', or a right-hand side after '=') the split must be bounded (`split(sep, 1)`, partition) - otherwise whether
+    # the equation exists depends on what its comment says
+    for fn in prog.all_functions():
+        if '/deprecated/' in fn.module.rel:
+            continue
+        for a_ in ast.walk(fn.node):
+            if not (isinstance(a_, ast.Assign) and len(a_.targets) == 1 and isinstance(a_.targets[0], (ast.Tuple, ast.List)) and
+                    not any(isinstance(e_, ast.Starred) for e_ in a_.targets[0].elts)):
+                continue
+            v_ = a_.value
+            if not (isinstance(v_, ast.Call) and call_name(v_) in ('split', 'rsplit') and isinstance(v_.func, ast.Attribute) and v_.args and
+                    isinstance(v_.args[0], ast.Constant) and v_.args[0].value in ('#', '=')):
+                continue
+            k_ = len(a_.targets[0].elts)
+            bounded = (len(v_.args) >= 2 and isinstance(v_.args[1], ast.Constant) and v_.args[1].value == k_ - 1) or \
+                any(kw.arg == 'maxsplit' and isinstance(kw.value, ast.Constant) and kw.value.value == k_ - 1 for kw in v_.keywords)
+            n1 += 1
+            check.saw(fn)
+            check.ob('C14.R1', '%s::bounded-split(%s)' % (fn.key, unparse(v_)), bounded, '%s:%d' % (fn.module.rel, a_.lineno),
+                     'the text is cut at the first %r only' % v_.args[0].value if bounded else
+                     'the text is cut at every %r and unpacked into %d names: a second %r in the comment / description raises ValueError, so '
+                     'the equation is accepted or refused depending on its comment' % (v_.args[0].value, k_, v_.args[0].value),
+                     "a declaration 'x = y # item #3'")
     # ---- R5 ----------------------------------------------------------------------------------------
     for n in ast.walk(loop):
         if isinstance(n, ast.Assign) and any(rhs_var in target_names(t) for t in n.targets):
